@@ -108,6 +108,8 @@ def make_feeds(gb: GB, rng: np.random.Generator):
             a = (rng.standard_normal(shape) * 0.25).astype(NP[dt])
         elif kind == "tiny":  # variance ~1e-3: a wrong / dropped epsilon changes a normalisation visibly
             a = (rng.standard_normal(shape) * 0.03).astype(NP[dt])
+        elif kind == "lowvar":  # nearly constant rows: c + 1e-3 * noise (variance ~1e-6: epsilon dominates a LayerNormalization)
+            a = (rng.standard_normal(list(shape[:-1]) + [1]) + 1e-3 * rng.standard_normal(shape)).astype(NP[dt])
         elif kind == "mask":  # additive attention mask: 0 or a large negative number, never a fully masked row
             a = np.where(rng.random(shape) < 0.3, -1000.0, 0.0)
             a[..., 0] = 0.0
@@ -154,10 +156,18 @@ def build_rms(c):
             x = g.op("Add", x, bias)
         outs.append(x)
     miss = c.get("miss", "none")  # one near-miss at a time: reduction axis spelled 2, attributes left to their defaults, x**3
+    if c.get("sln", "pat") != "pat":
+        # SimplifiedLayerNormalization already in the source (what rms_normalization.py produces), epsilon spelled out or omitted
+        kw = {"epsilon": EPS[c["eps"]]} if c["sln"] == "op" else {}
+        y = g.op("SimplifiedLayerNormalization", x, g.const(_vec(D, dt, 1), "scale"), axis=-1, stash_type=1, **kw)
+        g.out(y, dt, [B, S, D])
+        for o in outs:
+            g.out(o, dt, [B, S, D])
+        return g
     cdt = "f32" if c["cast"] else dt
     xc = g.op("Cast", x, to=F32) if c["cast"] else x
     sq = g.op("Pow", xc, g.const(np.array(3.0 if miss == "expo" else 2.0, NP[cdt])))
-    ax = 2 if miss == "axis" else -1
+    ax = 2 if miss == "axis" else (1 if miss == "axis1" else -1)
     kw = {} if miss == "attrs" else {"keepdims": 1, "noop_with_empty_axes": 0}
     ms = g.op("ReduceMean", sq, g.const(np.array([ax], np.int64)), **kw)
     mse = g.op("Add", ms, g.const(np.array(EPS[c["eps"]], NP[cdt])))
@@ -188,6 +198,8 @@ def _vec(n, dt, salt):
         return (1.0 + 0.1 * r.standard_normal(n)).astype(NP[dt])
     if salt == 3:  # additive bias in front of a normalisation: same scale as the data
         return (0.03 * r.standard_normal(n)).astype(NP[dt])
+    if salt == 4:  # ... as the noise of the nearly constant rows
+        return (1e-3 * r.standard_normal(n)).astype(NP[dt])
     return (0.1 * r.standard_normal(n)).astype(NP[dt])
 
 
@@ -200,9 +212,11 @@ def build_skipln(c):
     g = GB("skipln")
     dt = c["dt"]
     B, S, D = c["B"], c["S"], c["D"]
-    x = g.inp("x", dt, [B, S, D], kind="tiny")
-    sk = g.inp("skip", dt, _skip_shape(c), kind="tiny")
-    bias = g.const(_vec(D, dt, 3), "bias") if c["bias"] != "none" else None
+    # f32: nearly constant rows (epsilon decides the result); f16: small values (f16 rounding of a sum of near-constant rows
+    # would itself be amplified by the normalisation and is not the fusion's doing)
+    x = g.inp("x", dt, [B, S, D], kind="lowvar" if dt == "f32" else "tiny")
+    sk = g.inp("skip", dt, _skip_shape(c), kind="lowvar" if dt == "f32" else "tiny")
+    bias = g.const(_vec(D, dt, 4 if dt == "f32" else 3), "bias") if c["bias"] != "none" else None
 
     def addb(t):
         return g.op("Add", bias, t) if c.get("biasorder", 0) else g.op("Add", t, bias)
@@ -218,7 +232,9 @@ def build_skipln(c):
     kw = {}
     if miss != "axisabsent":
         kw["axis"] = 2 if miss == "axispos" else -1
-    y = g.op("LayerNormalization", s, gamma, beta, epsilon=EPS[c["eps"]], **kw)
+    if c["eps"] != 3:  # 3: attribute omitted (ONNX default 1e-5)
+        kw["epsilon"] = EPS[c["eps"]]
+    y = g.op("LayerNormalization", s, gamma, beta, **kw)
     g.out(y, dt, [B, S, D])
     g.out(s, dt, [B, S, D])
     return g
@@ -589,7 +605,8 @@ def _sdpa_core(g, c, q, k, v, kfmt, npd, B, H, S, T, Dh):
         mshape = MASKSHAPES[c["mask"]](B, H, S, T)
         m = g.inp("mask", c["dt"], mshape, kind="mask")
         s = g.op("Add", s, m)
-    w = g.op("Softmax", s, axis=-1)
+    sax = c.get("sax", "neg")
+    w = g.op("Softmax", s, **({} if sax == "absent" else {"axis": {"neg": -1, "pos": 3, "two": 2, "one": 1}[sax]}))
     if c.get("nanfix"):
         isn = g.op("IsNaN", w)
         w = g.op("Where", isn, g.const(np.array(0.0, npd)), w)
@@ -841,7 +858,7 @@ def build_gqa(c):
     pos = g.op("Unsqueeze", pos1d, i64([0]))
     if B > 1:
         pos = g.op("Tile", pos, g.op("Concat", Bv, i64([1]), axis=0))
-    rattr = {"interleaved": 1} if c["inter"] else {}
+    rattr = {"interleaved": 1} if c["inter"] == 1 else ({"interleaved": 0} if c["inter"] == 2 else {})
     q_rope = g.op("RotaryEmbedding", q_BHSDh, pos, cos, sin, domain="com.microsoft", **rattr)
     g.info(q_rope, dt, ["B", H, "S", Dh])
     k_rope = g.op("RotaryEmbedding", k_BHkvSDh, pos, cos, sin, domain="com.microsoft", **rattr)
@@ -944,7 +961,8 @@ def replay_cfg(item):
     try:
         g = BUILDERS[fam](cfg)
         m = g.model()
-        onnx.checker.check_model(m)
+        if not any(n.op_type == "SimplifiedLayerNormalization" for n in m.graph.node):  # an ORT-only operator in the default domain
+            onnx.checker.check_model(m)
         m = onnx.shape_inference.infer_shapes(m)
         feeds = make_feeds(g, np.random.default_rng(seed))
         st, before = run_ort(m, feeds)
@@ -1141,6 +1159,26 @@ def parse_lines(out, tag):
 FAM_BUDGET = {"rms": 50, "skipln": 40, "gelu": 40, "softmax": 12, "groupnorm": 10, "rotary": 60, "sdpa": 60, "mha": 110, "gqa": 60}
 
 
+STRATA = ("miss", "sax", "eps", "sln", "form", "split", "mulswap", "axis", "up", "down", "ones", "rot", "inter", "kfmt", "proj", "past")
+
+
+def _round_robin(items):
+    """order the (already shuffled) items so that every value combination of the near-miss / forwarded-attribute fields
+    (attribute omitted, explicit default, explicit other value, other legal axis, ...) comes up before any repeats"""
+    buckets = {}
+    for x in items:
+        buckets.setdefault(tuple(str(x[0].get(k)) for k in STRATA), []).append(x)
+    out = []
+    keys = sorted(buckets)
+    i = 0
+    while len(out) < len(items):
+        for k in keys:
+            if i < len(buckets[k]):
+                out.append(buckets[k][i])
+        i += 1
+    return out
+
+
 def choose(ctx, groups):
     """groups: {family: [(cfg, cases)]}; quick tier: a seeded sample per family that keeps deviation cases and firing cases"""
     if not ctx.quick:
@@ -1152,8 +1190,8 @@ def choose(ctx, groups):
         rng.shuffle(items)
         budget = FAM_BUDGET.get(f, 40)
         dev = [x for x in items if any(c["why"] for c in x[1])]
-        fire = [x for x in items if not any(c["why"] for c in x[1]) and any(any(c["fired"].values()) for c in x[1])]
-        rest = [x for x in items if not any(c["why"] for c in x[1]) and not any(any(c["fired"].values()) for c in x[1])]
+        fire = _round_robin([x for x in items if not any(c["why"] for c in x[1]) and any(any(c["fired"].values()) for c in x[1])])
+        rest = _round_robin([x for x in items if not any(c["why"] for c in x[1]) and not any(any(c["fired"].values()) for c in x[1])])
         # every deviation id at least twice
         bydev = {}
         for x in dev:
